@@ -26,7 +26,8 @@ EXTENDS Integers, Sequences, FiniteSets, TLC
 CONSTANTS Configs,          \* set of configuration records explored in model-checking mode
           CountBasedCheck   \* D9 as coded
 
-VARIABLES cfg,      \* [agents, imported, targets, rows: set of <<a, k>>, obs: set of <<k, t, s>>, nsteps]
+VARIABLES cfg,      \* [agents, imported, targets, rows: set of <<a, k>>, obs: set of <<k, t, s>>, nsteps,
+                    \*  born: [agents -> step in which the agent joins the scenario (0 = from the start)]]
           k, pc,
           held,     \* [agents -> <<source, epoch>>]
           registered,
@@ -42,6 +43,8 @@ InitWith(c) ==
   /\ impdb = <<c.rows, c.obs>>
 Init == \E c \in Configs : InitWith(c)
 
+\* agents that take part in step j (an agent added by an event of step j is propagated / imported in step j)
+Active(j) == {a \in cfg.agents : cfg.born[a] <= j}
 RowsAt(j) == {r \in cfg.rows : r[2] = j}
 HasRow(a, j) == <<a, j>> \in cfg.rows
 
@@ -49,8 +52,8 @@ HasRow(a, j) == <<a, j>> \in cfg.rows
 BeginStep ==
   /\ pc = "idle" /\ k < cfg.nsteps
   /\ k' = k + 1
-  /\ registered' = cfg.imported
-  /\ held' = [a \in cfg.agents |-> IF a \in cfg.imported THEN held[a] ELSE <<"realtime", k + 1>>]
+  /\ registered' = cfg.imported \cap Active(k + 1)          \* every imported agent currently in the scenario, each step anew
+  /\ held' = [a \in cfg.agents |-> IF a \in cfg.imported \/ a \notin Active(k + 1) THEN held[a] ELSE <<"realtime", k + 1>>]
   /\ reached' = [t \in cfg.targets |-> {}]
   /\ pc' = "registered"
   /\ UNCHANGED <<cfg, impdb>>
@@ -96,10 +99,10 @@ Spec == Init /\ [][Next]_vars
 
 \* after a successful import every imported agent holds the database record of THIS epoch
 ImportFaithful ==
-  pc \in {"imported", "loaded"} => \A a \in cfg.imported : held[a] = <<"import", k>>
+  pc \in {"imported", "loaded"} => \A a \in cfg.imported \cap Active(k) : held[a] = <<"import", k>>
 \* ... in particular the run never continues with a stale state: a gap must raise
 NoStaleState ==
-  pc \in {"imported", "loaded", "idle"} => \A a \in cfg.imported : held[a][2] = k
+  pc \in {"imported", "loaded", "idle"} => \A a \in cfg.imported \cap Active(k) : held[a][2] = k
 \* stored observations of the epoch reach the filter of their target at that epoch
 ObsReachFilter ==
   pc = "loaded" => \A t \in cfg.targets : reached[t] = {o \in cfg.obs : o[1] = k /\ o[2] = t}
